@@ -310,6 +310,12 @@ pub fn shape_exact(t: i32, r: &mut Rng, c: &Cfg, parts: usize, len: usize) -> Sh
 /// offsets are not an arithmetic progression); every 7th sequence uses equal sizes instead.
 pub fn sequence(t: i32, r: &mut Rng, c: &Cfg, min_n: usize, max_n: usize, variant: u64) -> Vec<Shape> {
     let n = r.usize_in(min_n, max_n.max(min_n));
+    if variant % 11 == 5 && carries_m(t) {
+        // all measures of all shapes equal one special value (no-data regimes)
+        let m = *r.pick(&[NO_DATA, f64::NAN, f64::NEG_INFINITY, prev(NO_DATA), 0.0, -1e39]);
+        let m = if c.nan_zm || !m.is_nan() { m } else { NO_DATA };
+        return (0..n).map(|_| crate::shapes::with_uniform_measure(&shape(t, r, c), m)).collect();
+    }
     if variant % 7 == 3 {
         let parts = r.usize_in(1, c.max_parts.max(1));
         let len = r.usize_in(1, c.max_len.max(1));
